@@ -131,12 +131,13 @@ pub trait I1<T: Flt> {
 macro_rules! impl_i1 {
     (@scalar yes, $s:ident, $q:ident) => { Some($s.interp_scalar($q).map_err(|e| e.to_string())) };
     (@scalar no, $s:ident, $q:ident) => {{ let _ = $q; None }};
-    ($D:ty, $Strat:ty, $sc:tt) => {
-        impl<T, Sd, Sx> $crate::adapt::I1<T> for ndarray_interp::interp1d::Interp1D<Sd, Sx, $D, $Strat>
+    ($D:ty, $Strat:ty, $sc:tt $(, $g:ident : $b:path)*) => {
+        impl<T, Sd, Sx $(, $g)*> $crate::adapt::I1<T> for ndarray_interp::interp1d::Interp1D<Sd, Sx, $D, $Strat>
         where
             T: $crate::gen::Flt,
             Sd: ndarray::Data<Elem = T>,
             Sx: ndarray::Data<Elem = T>,
+            $($g: $b,)*
         {
             fn t_scalar(&self, q: T) -> Option<$crate::adapt::R<T>> {
                 $crate::impl_i1!(@scalar $sc, self, q)
@@ -252,6 +253,7 @@ pub trait I2<T: Flt> {
     fn t_interp(&self, x: T, y: T) -> R<Arr<T>>;
     fn t_interp_into(&self, x: T, y: T, buf: ArrayViewMutD<'_, T>) -> Option<R<()>>;
     fn t_array(&self, xs: ArrayViewD<'_, T>, ys: ArrayViewD<'_, T>, qd: QDim) -> Option<R<Arr<T>>>;
+    fn t_array_owned(&self, xs: ArrayD<T>, ys: ArrayD<T>, qd: QDim) -> Option<R<Arr<T>>>;
     fn t_array_into(
         &self,
         xs: ArrayViewD<'_, T>,
@@ -269,13 +271,14 @@ pub trait I2<T: Flt> {
 macro_rules! impl_i2 {
     (@scalar yes, $s:ident, $x:ident, $y:ident) => { Some($s.interp_scalar($x, $y).map_err(|e| e.to_string())) };
     (@scalar no, $s:ident, $x:ident, $y:ident) => {{ let _ = ($x, $y); None }};
-    ($D:ty, $Strat:ty, $sc:tt) => {
-        impl<T, Sd, Sx, Sy> $crate::adapt::I2<T> for ndarray_interp::interp2d::Interp2D<Sd, Sx, Sy, $D, $Strat>
+    ($D:ty, $Strat:ty, $sc:tt $(, $g:ident : $b:path)*) => {
+        impl<T, Sd, Sx, Sy $(, $g)*> $crate::adapt::I2<T> for ndarray_interp::interp2d::Interp2D<Sd, Sx, Sy, $D, $Strat>
         where
             T: $crate::gen::Flt,
             Sd: ndarray::Data<Elem = T>,
             Sx: ndarray::Data<Elem = T>,
             Sy: ndarray::Data<Elem = T>,
+            $($g: $b,)*
         {
             fn t_scalar(&self, x: T, y: T) -> Option<$crate::adapt::R<T>> {
                 $crate::impl_i2!(@scalar $sc, self, x, y)
@@ -298,6 +301,34 @@ macro_rules! impl_i2 {
                 &self,
                 xs: ndarray::ArrayViewD<'_, T>,
                 ys: ndarray::ArrayViewD<'_, T>,
+                qd: $crate::adapt::QDim,
+            ) -> Option<$crate::adapt::R<$crate::adapt::Arr<T>>> {
+                use ndarray::*;
+                use $crate::adapt::QDim;
+                macro_rules! go {
+                    ($Dq:ty) => {{
+                        let xv = xs.into_dimensionality::<$Dq>().ok()?;
+                        let yv = ys.into_dimensionality::<$Dq>().ok()?;
+                        Some(
+                            self.interp_array(&xv, &yv)
+                                .map(|a| $crate::adapt::to_arr(&a))
+                                .map_err(|e| e.to_string()),
+                        )
+                    }};
+                }
+                match qd {
+                    QDim::S0 => go!(Ix0),
+                    QDim::S1 => go!(Ix1),
+                    QDim::S2 => go!(Ix2),
+                    QDim::S3 => go!(Ix3),
+                    QDim::S4 => go!(Ix4),
+                    QDim::Dyn => go!(IxDyn),
+                }
+            }
+            fn t_array_owned(
+                &self,
+                xs: ndarray::ArrayD<T>,
+                ys: ndarray::ArrayD<T>,
                 qd: $crate::adapt::QDim,
             ) -> Option<$crate::adapt::R<$crate::adapt::Arr<T>>> {
                 use ndarray::*;
@@ -497,4 +528,105 @@ pub fn arr_1<T: Flt>(vals: &[f64]) -> Array1<T> {
 #[allow(unused)]
 fn _unused(_: ArrayView1<f64>, _: Array<f64, Ix0>, _: Interp1D<ndarray::OwnedRepr<f64>, ndarray::OwnedRepr<f64>, Ix1, Linear>, _: Interp2D<ndarray::OwnedRepr<f64>, ndarray::OwnedRepr<f64>, ndarray::OwnedRepr<f64>, Ix2, Bilinear>) {
     let _ = std::any::type_name::<<Ix1 as DimAdd<Ix1>>::Output>();
+}
+
+
+// ---------------------------------------------------------------------------------------------
+// Builders over arbitrary storage kinds / layouts (C13): the arrays are passed as they are
+// (owned clones keep their strides) or as views; the interpolator only lives inside `f`.
+// ---------------------------------------------------------------------------------------------
+
+pub fn with_interp1<T: Flt, Rr>(
+    x: Option<&Array1<T>>,
+    x_view: bool,
+    data: &ArrayD<T>,
+    data_view: bool,
+    dd: DDim,
+    strat: &Strat1<T>,
+    f: &mut dyn FnMut(&dyn I1<T>) -> Rr,
+) -> Option<Result<Rr, BuilderError>> {
+    macro_rules! finish {
+        ($b:expr) => {{
+            let b = $b;
+            match (x, x_view) {
+                (Some(x), true) => b.x(x.view()).build().map(|i| f(&i)),
+                (Some(x), false) => b.x(x.clone()).build().map(|i| f(&i)),
+                (None, _) => b.build().map(|i| f(&i)),
+            }
+        }};
+    }
+    macro_rules! go {
+        ($D:ty) => {{
+            match strat {
+                Strat1::Linear { extrapolate } => {
+                    let s = Linear::new().extrapolate(*extrapolate);
+                    if data_view {
+                        let d = data.view().into_dimensionality::<$D>().ok()?;
+                        Some(finish!(Interp1DBuilder::new(d).strategy(s)))
+                    } else {
+                        let d = data.clone().into_dimensionality::<$D>().ok()?;
+                        Some(finish!(Interp1DBuilder::new(d).strategy(s)))
+                    }
+                }
+                Strat1::Spline { extrapolate, bc } => {
+                    let s = CubicSpline::<T, $D>::new().extrapolate(*extrapolate).boundary(conv_bc::<T, $D>(bc)?);
+                    if data_view {
+                        let d = data.view().into_dimensionality::<$D>().ok()?;
+                        Some(finish!(Interp1DBuilder::new(d).strategy(s)))
+                    } else {
+                        let d = data.clone().into_dimensionality::<$D>().ok()?;
+                        Some(finish!(Interp1DBuilder::new(d).strategy(s)))
+                    }
+                }
+            }
+        }};
+    }
+    ddispatch!(dd, go)
+}
+
+pub fn with_interp2<T: Flt, Rr>(
+    x: Option<&Array1<T>>,
+    y: Option<&Array1<T>>,
+    axes_view: bool,
+    data: &ArrayD<T>,
+    data_view: bool,
+    dd: DDim,
+    extrapolate: bool,
+    f: &mut dyn FnMut(&dyn I2<T>) -> Rr,
+) -> Option<Result<Rr, BuilderError>> {
+    macro_rules! finish {
+        ($b:expr) => {{
+            let b = $b;
+            match (x, y, axes_view) {
+                (Some(x), Some(y), true) => b.x(x.view()).y(y.view()).build().map(|i| f(&i)),
+                (Some(x), Some(y), false) => b.x(x.clone()).y(y.clone()).build().map(|i| f(&i)),
+                (Some(x), None, true) => b.x(x.view()).build().map(|i| f(&i)),
+                (Some(x), None, false) => b.x(x.clone()).build().map(|i| f(&i)),
+                (None, Some(y), true) => b.y(y.view()).build().map(|i| f(&i)),
+                (None, Some(y), false) => b.y(y.clone()).build().map(|i| f(&i)),
+                (None, None, _) => b.build().map(|i| f(&i)),
+            }
+        }};
+    }
+    macro_rules! go {
+        ($D:ty) => {{
+            let s = Bilinear::new().extrapolate(extrapolate);
+            if data_view {
+                let d = data.view().into_dimensionality::<$D>().ok()?;
+                Some(finish!(Interp2DBuilder::new(d).strategy(s)))
+            } else {
+                let d = data.clone().into_dimensionality::<$D>().ok()?;
+                Some(finish!(Interp2DBuilder::new(d).strategy(s)))
+            }
+        }};
+    }
+    match dd {
+        DDim::S1 => None,
+        DDim::S2 => go!(Ix2),
+        DDim::S3 => go!(Ix3),
+        DDim::S4 => go!(Ix4),
+        DDim::S5 => go!(Ix5),
+        DDim::S6 => go!(Ix6),
+        DDim::Dyn => go!(IxDyn),
+    }
 }
